@@ -17,10 +17,13 @@ raw entries. Same namespace as Props/C10.lean.
     per merged container) + `forward_blocks_decode` (the reader's lookup table cuts such a region back
     into exactly these blocks, for any number of containers);
     `Neg.buffer_reset_per_key_misaligns_later_containers`; `tie_forward_merge_reset`.
-    PARTIAL: that the block a container's scan produces holds, for each low key in bitmap order, the
-    value id of THAT series (the scanners' cursor invariant: `tagValueIdx` = number of the container's
-    low keys already visited) is validated by the correspondence stream (`fwdmerge` / `fwdjob` run the
-    cursor-level model against the real merger) and by `forward_merge_sample`, not proved in general.
+    `forward_scan_cursor_computes_block`: under the scanners' cursor invariant the scan of one merged
+    container appends, low key by low key, the value id of THAT series (any number of scanners).
+    PARTIAL: that `newTagForwardScanner` / `nextContainer` ESTABLISH the cursor invariant at the start
+    of every container for well-formed inputs (sorted containers, the merged bitmap a superset), and
+    that disjoint inputs then give blocks of exactly the containers' cardinalities, is validated by
+    the correspondence stream (`fwdmerge` / `fwdjob` run the cursor-level model against the real
+    merger) and by `forward_merge_sample`, not proved in general.
 
 (D) `dispatch_edge_patterns`: empty / degenerate patterns of the four atomic filters.
 -/
@@ -185,6 +188,24 @@ theorem forward_blocks_decode (bm : List (Nat × List Nat)) (blocks : List (List
       = (bm.zip blocks).map (fun cb => (cb.1.1, cb.1.2.zip cb.2)) := by
   have h := decodeFrom_blocks bm blocks [] [] hlen hcard
   simpa [RawEntry.decode] using h
+
+/-- **forward_scan_cursor_computes_block.** The scan of ONE merged container (`for it.HasNext() { for _, scanner
+:= range m.scanners { scanner.scan(...) } }`) with any number of scanners: when every scanner is either idle for
+this container (it stands on a later one, or its reader has no such container) or satisfies the cursor
+invariant `CurOK` (the unread rest of `tagValueIDs` are the values of its container's not yet visited low
+keys; visited low keys are smaller than all that follow; the remaining ones are ascending and will all be
+visited), then for ascending low keys the scan never indexes out of range and appends exactly `blockSpec`:
+low key by low key, scanner by scanner, the value id that scanner's container pairs with THAT low key. -/
+theorem forward_scan_cursor_computes_block {h : Nat} (ls : List Nat) (srs : List (MScan × List (Nat × ValId)))
+    (buf : List ValId) (hasc : ls.Pairwise (· < ·)) (hok : ∀ sr ∈ srs, ScanOK h sr.1 sr.2 ls) :
+    ∃ ss', scanLows h ls (srs.map (·.1)) buf = some (ss', buf ++ blockSpec ls (srs.map (·.2))) :=
+  scanLows_spec ls srs buf hasc hok
+
+/-- non-vacuity: a scanner fresh from `newTagForwardScanner` satisfies the cursor invariant for its first
+container, and `blockSpec` interleaves two containers' values by low key -/
+example : CurOK 0 (MScan.new (rawOf [(0, [(0, 10), (5, 7)]), (2, [(0, 30)])])) [(0, 10), (5, 7)] [0, 3, 5] :=
+  ⟨rfl, [], rfl, rfl, by simp, by decide, by decide⟩
+example : blockSpec [0, 3, 5] [[(0, 10), (5, 7)], [(3, 11)]] = [10, 11, 7] := by decide
 
 /-- non-vacuity / sample of the cursor level: two inputs over three containers (one container only in
 the second input, interleaved low keys), a stale buffer, two keys through one merger -/
